@@ -285,8 +285,26 @@ def _m_set_remove(eng, st, r, a, kw, e):
 
 
 def _m_set_discard(eng, st, r, a, kw, e):
+    if isinstance(a[0].ty, TOpt) and a[0].ty.elem == r.ty.elem:
+        # discard(None) on a set of non-None elements is a no-op
+        o = a[0]
+        return NONE, Val(r.ty, z3.If(o.ty.is_none(o.t), r.t, z3.Store(r.t, o.ty.val(o.t), False)))
+    if a[0].ty == TNoneLit:
+        return NONE, r
     x = eng.coerce(a[0], r.ty.elem, st)
     return NONE, Val(r.ty, z3.Store(r.t, x.t, False))
+
+
+def _m_dict_get(eng, st, r, a, kw, e):
+    """d.get(k) / d.get(k, default): Optional value (None when absent and no default is given)"""
+    k = eng.coerce(a[0], r.ty.key, st)
+    present = r.ty.dom(r.t)[k.t]
+    val = r.ty.vals(r.t)[k.t]
+    if len(a) == 1:
+        ot = TOpt(r.ty.val)
+        return Val(ot, z3.If(present, ot.some(val), ot.none().t)), None
+    d = eng.coerce(a[1], r.ty.val, st)
+    return Val(r.ty.val, z3.If(present, val, d.t)), None
 
 
 def _m_set_union(eng, st, r, a, kw, e):
@@ -326,6 +344,7 @@ _METHODS = {
     ("TSet", "union"): _m_set_union,
     ("TSet", "copy"): _m_copy,
     ("TDict", "items"): _m_dict_items,
+    ("TDict", "get"): _m_dict_get,
     ("TDict", "keys"): _m_dict_keys,
     ("TDict", "copy"): _m_copy,
 }
